@@ -1512,6 +1512,15 @@ class BootstrapElectionModel(BaseElectionModel):
             aggregate_temp_column_name = "-".join(aggregate)
             all_units[aggregate_temp_column_name] = all_units[aggregate].agg("_".join, axis=1)
             dummies = pd.get_dummies(all_units[aggregate_temp_column_name])
+            # the rows of the aggregate data frames are ordered by sort_values(aggregate). That is not the
+            # alphabetical order of the joined names when one id is a prefix of another (districts "1" and "10"),
+            # so put the indicator columns into the same order
+            dummies = dummies[
+                all_units[aggregate + [aggregate_temp_column_name]]
+                .drop_duplicates()
+                .sort_values(aggregate)[aggregate_temp_column_name]
+                .tolist()
+            ]
         else:
             # since aggregate is of length zero we can grab the first element
             dummies = pd.get_dummies(all_units[aggregate[0]])
@@ -1662,6 +1671,15 @@ class BootstrapElectionModel(BaseElectionModel):
             aggregate_temp_column_name = "-".join(aggregate)
             all_units[aggregate_temp_column_name] = all_units[aggregate].agg("_".join, axis=1)
             dummies = pd.get_dummies(all_units[aggregate_temp_column_name])
+            # the rows of the aggregate data frames are ordered by sort_values(aggregate). That is not the
+            # alphabetical order of the joined names when one id is a prefix of another (districts "1" and "10"),
+            # so put the indicator columns into the same order
+            dummies = dummies[
+                all_units[aggregate + [aggregate_temp_column_name]]
+                .drop_duplicates()
+                .sort_values(aggregate)[aggregate_temp_column_name]
+                .tolist()
+            ]
         else:
             # since aggregate is of length one, we can grab the first element
             dummies = pd.get_dummies(all_units[aggregate[0]])
